@@ -3,12 +3,20 @@
 // (verifh/sched), or free-running with direct monitors (atomic gauges inside the guarded
 // regions; also mr and fx worker caps) for the -race run of the thorough tier.
 //
-// Case: {"id","kind":"lim"|"tr"|"pl"|"mrfx","obj":"limit"|"tlimit"|"maxconns","n","maxage",
-//        "scripts":[[[opcode,arg],...] per thread],"sched":[actor...],"free":bool}
+// Case: {"id","kind":"lim"|"tr"|"pl"|"wp"|"wg"|"ctor"|"mrfx","obj":...,"n","maxage",
+//        "scripts":[[[opcode,arg],...] per thread],"sched":[actor...],"free":bool,
+//        "inst":[instance per thread],"ns":[capacity per instance]}   (several instances at once)
 // lim opcodes: 0 Borrow, 1 TryBorrow, 2 Return, 3 TimeoutLimit.Borrow(arg=1: zero timeout),
-//              4 TimeoutLimit.Return, 5 HTTP request (arg=1: handler panics)
-// tr opcodes:  0 Schedule(arg=1: task panics), 1 ScheduleImmediately
-// pl opcodes:  0 Get, 1 Put (most recently obtained resource), 2 advance clock by arg ns
+//              4 TimeoutLimit.Return, 5 HTTP request (arg=1: handler panics); obj maxconns with
+//              n <= 0 is the documented "no limit" configuration
+// tr opcodes:  0 Schedule(arg=1: task panics), 1 ScheduleImmediately, 2 Wait
+// pl opcodes:  0 Get, 1 Put (most recently obtained resource), 2 advance clock by arg ns, 3 Put(nil)
+// wp objs:     mr (ForEach) mrdef (ForEach, default workers) mrmr (MapReduce) mrvoid (MapReduceVoid)
+//              mrchan (MapReduceChan) finish (Finish) finishvoid (FinishVoid)
+//              fx (Walk) fxp (Parallel) fxmap (Map) fxfilter (Filter) fxu (Walk, UnlimitedWorkers)
+//              fxdef (Walk, default workers); n is passed as is to WithWorkers (may be <= 0)
+// wg:          threading.NewWorkerGroup(job, n).Start(); items[k] = the k-th job invocation panics
+// ctor:        obj limit|tlimit|taskrunner|pool constructed with n (<= 0): R = 1 ok, 3 panicked
 // Results: 1 = nil/true/200, 0 = ErrLimitReturn/false/503/ErrTaskRunnerBusy, 2 = ErrTimeout,
 //          3 = handler panic propagated; pl: Get -> resource id, others -1.
 package main
@@ -17,8 +25,8 @@ import (
 	"fmt"
 	"net/http"
 	"net/http/httptest"
+	"regexp"
 	"strconv"
-	"strings"
 	"sync"
 	"sync/atomic"
 	"time"
@@ -44,6 +52,22 @@ type Case struct {
 	Sched   []int       `json:"sched"`
 	Free    bool        `json:"free"`
 	Items   []int64     `json:"items"` // kind "wp": per item, does the mapper / walk function panic
+	Inst    []int       `json:"inst"`  // instance used by each thread (absent: all use instance 0)
+	Ns      []int       `json:"ns"`    // capacity of each instance (absent: [n])
+}
+
+func (c Case) caps() []int {
+	if len(c.Ns) > 0 {
+		return c.Ns
+	}
+	return []int{c.N}
+}
+
+func (c Case) instOf(tid int) int {
+	if tid < len(c.Inst) {
+		return c.Inst[tid]
+	}
+	return 0
 }
 
 type Out struct {
@@ -52,6 +76,7 @@ type Out struct {
 	Steps   []sched.StepObs `json:"steps"`
 	Monitor []string        `json:"monitor,omitempty"`
 	Err     string          `json:"err,omitempty"`
+	R       int64           `json:"r,omitempty"`
 }
 
 const stepTimeout = 5 * time.Second
@@ -78,33 +103,53 @@ func spin(k int) {
 }
 
 func runLim(c Case, ctl *sched.Ctl, mon *monitor, wg *sync.WaitGroup) {
-	lim := syncx.NewLimit(c.N)
-	tl := syncx.NewTimeoutLimit(c.N)
-	var inside, holders int32
-	enter := func(p *int32, what string) {
-		if v := atomic.AddInt32(p, 1); int(v) > c.N {
-			mon.report("%s: %d holders inside the guarded region, cap %d", what, v, c.N)
+	caps := c.caps()
+	ni := len(caps)
+	lims := make([]syncx.Limit, ni)
+	tls := make([]syncx.TimeoutLimit, ni)
+	hs := make([]http.Handler, ni)
+	inside := make([]int32, ni)
+	holders := make([]int32, ni)
+	enter := func(p *int32, k int, what string) {
+		if v := atomic.AddInt32(p, 1); int(v) > caps[k] && !(what == "maxconns" && caps[k] <= 0) {
+			mon.report("%s: %d holders inside the guarded region, cap %d", what, v, caps[k])
 		}
 	}
 	body := http.HandlerFunc(func(w http.ResponseWriter, r *http.Request) {
 		tid, _ := strconv.Atoi(r.Header.Get("X-Tid"))
 		i, _ := strconv.Atoi(r.Header.Get("X-Op"))
-		enter(&inside, "maxconns")
+		k := c.instOf(tid)
+		enter(&inside[k], k, "maxconns")
 		ctl.Log(tid, "fs", i)
 		ctl.Gate(tid, "fn", i)
 		if c.Free {
 			spin(tid + i)
 		}
 		ctl.Log(tid, "fe", i)
-		atomic.AddInt32(&inside, -1)
+		atomic.AddInt32(&inside[k], -1)
 		if r.Header.Get("X-Panic") == "1" {
 			panic("handler panic")
 		}
 		w.WriteHeader(http.StatusOK)
 	})
-	h := handler.MaxConnsHandler(c.N)(body)
+	// one middleware value per capacity; every route wrapped by it gets its own latch
+	mws := map[int]func(http.Handler) http.Handler{}
+	for k, n := range caps {
+		if c.Obj == "maxconns" {
+			if mws[n] == nil {
+				mws[n] = handler.MaxConnsHandler(n)
+			}
+			hs[k] = mws[n](body)
+		} else if c.Obj == "tlimit" {
+			tls[k] = syncx.NewTimeoutLimit(n)
+		} else {
+			lims[k] = syncx.NewLimit(n)
+		}
+	}
 	for tid, script := range c.Scripts {
 		tid, script := tid, script
+		k := c.instOf(tid)
+		lim, tl, h := lims[k], tls[k], hs[k]
 		wg.Add(1)
 		ctl.Go(tid, func() {
 			defer wg.Done()
@@ -119,7 +164,7 @@ func runLim(c Case, ctl *sched.Ctl, mon *monitor, wg *sync.WaitGroup) {
 					lim.Borrow()
 					r = 1
 					held++
-					enter(&holders, "limit")
+					enter(&holders[k], k, "limit")
 				case 1:
 					ok := false
 					if c.Obj == "tlimit" {
@@ -130,7 +175,7 @@ func runLim(c Case, ctl *sched.Ctl, mon *monitor, wg *sync.WaitGroup) {
 					if ok {
 						r = 1
 						held++
-						enter(&holders, "limit")
+						enter(&holders[k], k, "limit")
 					}
 				case 2, 4:
 					if c.Free && held == 0 {
@@ -138,7 +183,7 @@ func runLim(c Case, ctl *sched.Ctl, mon *monitor, wg *sync.WaitGroup) {
 						break
 					}
 					if held > 0 {
-						atomic.AddInt32(&holders, -1)
+						atomic.AddInt32(&holders[k], -1)
 						held--
 					}
 					var err error
@@ -149,6 +194,8 @@ func runLim(c Case, ctl *sched.Ctl, mon *monitor, wg *sync.WaitGroup) {
 					}
 					if err == nil {
 						r = 1
+					} else if err != syncx.ErrLimitReturn {
+						r = -1
 					}
 				case 3:
 					d := time.Hour
@@ -168,7 +215,7 @@ func runLim(c Case, ctl *sched.Ctl, mon *monitor, wg *sync.WaitGroup) {
 					if err == nil {
 						r = 1
 						held++
-						enter(&holders, "timeoutlimit")
+						enter(&holders[k], k, "timeoutlimit")
 					} else if err == syncx.ErrTimeout {
 						r = 2
 					} else {
@@ -203,11 +250,18 @@ func runLim(c Case, ctl *sched.Ctl, mon *monitor, wg *sync.WaitGroup) {
 }
 
 func runTR(c Case, ctl *sched.Ctl, mon *monitor, wg *sync.WaitGroup) {
-	tr := threading.NewTaskRunner(c.N)
+	caps := c.caps()
+	trs := make([]*threading.TaskRunner, len(caps))
+	running := make([]int32, len(caps))
+	for k, n := range caps {
+		trs[k] = threading.NewTaskRunner(n)
+	}
 	nthreads := len(c.Scripts)
-	var counter, running int32
+	var counter int32
 	for tid, script := range c.Scripts {
 		tid, script := tid, script
+		k := c.instOf(tid)
+		tr := trs[k]
 		wg.Add(1)
 		ctl.Go(tid, func() {
 			defer wg.Done()
@@ -216,16 +270,16 @@ func runTR(c Case, ctl *sched.Ctl, mon *monitor, wg *sync.WaitGroup) {
 				panics := op[1] == 1
 				task := func() {
 					id := nthreads + int(atomic.AddInt32(&counter, 1)) - 1
-					if v := atomic.AddInt32(&running, 1); int(v) > c.N {
-						mon.report("taskrunner: %d tasks running, cap %d", v, c.N)
+					if v := atomic.AddInt32(&running[k], 1); int(v) > caps[k] {
+						mon.report("taskrunner: %d tasks running, cap %d", v, caps[k])
 					}
-					ctl.Log(id, "fs", 0)
+					ctl.Log(id, "fs", 0, int64(k))
 					ctl.Gate(id, "task", 0)
 					if c.Free {
 						spin(tid + i)
 					}
-					ctl.Log(id, "fe", 0)
-					atomic.AddInt32(&running, -1)
+					ctl.Log(id, "fe", 0, int64(k))
+					atomic.AddInt32(&running[k], -1)
 					ctl.Done(id)
 					if panics {
 						panic("task panic")
@@ -235,10 +289,20 @@ func runTR(c Case, ctl *sched.Ctl, mon *monitor, wg *sync.WaitGroup) {
 				ctl.SetOp(tid, i)
 				ctl.Log(tid, "inv", i, op[0])
 				var r int64
-				if op[0] == 0 {
+				switch {
+				case op[0] == 0:
 					tr.Schedule(task)
 					r = 1
-				} else if tr.ScheduleImmediately(task) == nil {
+				case op[0] == 1:
+					if tr.ScheduleImmediately(task) == nil {
+						r = 1
+					}
+				default:
+					// Wait concurrently with a Schedule that finds the counter at zero is a misuse of
+					// sync.WaitGroup (not part of C05): free runs wait once, at the end
+					if !c.Free {
+						tr.Wait()
+					}
 					r = 1
 				}
 				ctl.Log(tid, "ret", i, r)
@@ -246,120 +310,155 @@ func runTR(c Case, ctl *sched.Ctl, mon *monitor, wg *sync.WaitGroup) {
 		})
 	}
 	if c.Free {
-		// Wait only after every Schedule has returned (WaitGroup.Add at zero concurrent with
-		// Wait is a misuse of sync.WaitGroup, not part of C05)
-		postRun = tr.Wait
+		// Wait only after every Schedule has returned
+		postRun = trs[0].Wait
 	}
 }
 
 var postRun func()
 
+// the goroutine waits for the pool's own mutex (sync.(*Mutex).Lock called directly by the
+// decorated locker), not for a lock of the controller inside the decoration's callback
+var poolLockWait = regexp.MustCompile(`sync\.\(\*Mutex\)\.Lock\([^\n]*\n[^\n]*\n[^\n]*syncx\.\(\*verifLocker\)\.Lock`)
+
 func runPL(c Case, ctl *sched.Ctl, mon *monitor, wg *sync.WaitGroup) {
 	timex.SetFakeNow(1000000)
-	var next int64
-	var live int32
-	inUse := map[int64]*int32{}
-	var imu sync.Mutex
-	flag := func(x int64) *int32 {
-		imu.Lock()
-		defer imu.Unlock()
-		p := inUse[x]
-		if p == nil {
-			p = new(int32)
-			inUse[x] = p
-		}
-		return p
-	}
-	create := func() any {
-		id := next
-		next++
-		if v := atomic.AddInt32(&live, 1); int(v) > c.N {
-			mon.report("pool: %d live resources, limit %d", v, c.N)
-		}
-		// create() is called by Pool.Get with the pool lock held: the caller parks here, inside
-		// the critical section; everybody else must block on the lock meanwhile
-		a := ctl.Actor()
-		if a < 0 {
-			a = 0
-		}
-		op := ctl.CurOp(a)
-		ctl.Log(a, "create", op, id)
-		ctl.Gate(a, "create", op)
-		return id
-	}
-	destroy := func(x any) {
-		atomic.AddInt32(&live, -1)
-		if atomic.LoadInt32(flag(x.(int64))) != 0 {
-			mon.report("pool: destroyed resource %d while held", x.(int64))
-		}
-		a := ctl.Actor()
-		if a < 0 {
-			a = 0
-		}
-		ctl.Log(a, "destroy", ctl.CurOp(a), x.(int64))
-	}
-	pool := syncx.NewPool(c.N, create, destroy, syncx.WithMaxAge(time.Duration(c.MaxAge)))
-	// a goroutine waiting for the pool's mutex while the lock holder is parked inside create()
-	// is blocked by the library, not about to run
-	ctl.MutexBlocked = func(stack string) bool {
-		return strings.Contains(stack, "syncx.(*Pool).") && ctl.AnyParked("create")
-	}
-	for tid, script := range c.Scripts {
-		tid, script := tid, script
-		wg.Add(1)
-		ctl.Go(tid, func() {
-			defer wg.Done()
-			var held []int64
-			for i, op := range script {
-				ctl.Gate(tid, "call", i)
-				ctl.SetOp(tid, i)
-				ctl.Log(tid, "inv", i, op[0])
-				r := int64(-1)
-				switch op[0] {
-				case 0:
-					if c.Free && len(held) > 0 {
-						break // free mode: hold at most one, so that the run cannot deadlock
-					}
-					x := pool.Get().(int64)
-					if !atomic.CompareAndSwapInt32(flag(x), 0, 1) {
-						mon.report("pool: resource %d handed to two users", x)
-					}
-					held = append([]int64{x}, held...)
-					r = x
-				case 1:
-					if len(held) > 0 {
-						x := held[0]
-						held = held[1:]
-						atomic.StoreInt32(flag(x), 0)
-						pool.Put(x)
-						r = x
-					}
-				case 2:
-					if !c.Free {
-						timex.AdvanceFake(time.Duration(op[1]))
-						ctl.Log(tid, "adv", i, op[1])
-					}
-				}
-				ctl.Log(tid, "ret", i, r)
+	caps := c.caps()
+	pools := make([]*syncx.Pool, len(caps))
+	for k := range caps {
+		k := k
+		var next int64
+		var live int32
+		inUse := map[int64]*int32{}
+		var imu sync.Mutex
+		flag := func(x int64) *int32 {
+			imu.Lock()
+			defer imu.Unlock()
+			p := inUse[x]
+			if p == nil {
+				p = new(int32)
+				inUse[x] = p
 			}
-			if c.Free {
-				for _, x := range held {
-					atomic.StoreInt32(flag(x), 0)
-					pool.Put(x)
-				}
+			return p
+		}
+		create := func() any {
+			id := next
+			next++
+			if v := atomic.AddInt32(&live, 1); int(v) > caps[k] {
+				mon.report("pool: %d live resources, limit %d", v, caps[k])
+			}
+			// create() is called by Pool.Get with the pool lock held: the caller parks here, inside
+			// the critical section; everybody else must block on the lock meanwhile
+			a := ctl.Actor()
+			if a < 0 {
+				a = 0
+			}
+			op := ctl.CurOp(a)
+			ctl.Log(a, "create", op, id)
+			ctl.Gate(a, "create", op)
+			return id
+		}
+		destroy := func(x any) {
+			atomic.AddInt32(&live, -1)
+			if atomic.LoadInt32(flag(x.(int64))) != 0 {
+				mon.report("pool: destroyed resource %d while held", x.(int64))
+			}
+			a := ctl.Actor()
+			if a < 0 {
+				a = 0
+			}
+			ctl.Log(a, "destroy", ctl.CurOp(a), x.(int64))
+		}
+		pool := syncx.NewPool(caps[k], create, destroy, syncx.WithMaxAge(time.Duration(c.MaxAge)))
+		// linearisation order of the critical sections (see harness/overlay/syncx/verif_c05_hooks.go)
+		pool.VerifOnLock(func() {
+			if a := ctl.Actor(); a >= 0 {
+				ctl.Log(a, "lk", ctl.CurOp(a))
 			}
 		})
+		pools[k] = pool
+		for tid, script := range c.Scripts {
+			if c.instOf(tid) != k {
+				continue
+			}
+			tid, script := tid, script
+			wg.Add(1)
+			ctl.Go(tid, func() {
+				defer wg.Done()
+				var held []int64
+				for i, op := range script {
+					ctl.Gate(tid, "call", i)
+					ctl.SetOp(tid, i)
+					ctl.Log(tid, "inv", i, op[0])
+					r := int64(-1)
+					switch op[0] {
+					case 0:
+						if c.Free && len(held) > 0 {
+							break // free mode: hold at most one, so that the run cannot deadlock
+						}
+						x := pool.Get().(int64)
+						if !atomic.CompareAndSwapInt32(flag(x), 0, 1) {
+							mon.report("pool: resource %d handed to two users", x)
+						}
+						held = append([]int64{x}, held...)
+						r = x
+					case 1:
+						if len(held) > 0 {
+							x := held[0]
+							held = held[1:]
+							atomic.StoreInt32(flag(x), 0)
+							pool.Put(x)
+							r = x
+						}
+					case 2:
+						if !c.Free {
+							timex.AdvanceFake(time.Duration(op[1]))
+							ctl.Log(tid, "adv", i, op[1])
+						}
+					case 3:
+						pool.Put(nil)
+					}
+					ctl.Log(tid, "ret", i, r)
+				}
+				if c.Free {
+					for _, x := range held {
+						atomic.StoreInt32(flag(x), 0)
+						pool.Put(x)
+					}
+				}
+			})
+		}
+	}
+	// a goroutine waiting for a pool's mutex while the lock holder is parked inside create()
+	// is blocked by the library, not about to run
+	ctl.MutexBlocked = func(stack string) bool {
+		return poolLockWait.MatchString(stack) && ctl.AnyParked("create")
 	}
 }
 
-// mr.ForEach / fx Walk under a forced schedule: actor 0 is the caller, actor 1+i the worker
-// that runs the user function on item i (gate inside the function).
+// mr / fx entry points under a forced schedule: actor 0 is the caller, actor 1+i the worker
+// that runs the user function on item i (gate inside the function).  c.N goes to WithWorkers
+// unchanged; capLimit is only the bound used by the free-running gauge.
+func effWorkers(c Case) int {
+	switch c.Obj {
+	case "mrdef", "fxdef":
+		return 16
+	case "finish", "finishvoid", "fxu":
+		return len(c.Items)
+	}
+	if c.N < 1 {
+		return 1
+	}
+	return c.N
+}
+
 func runWP(c Case, ctl *sched.Ctl, mon *monitor, wg *sync.WaitGroup) {
 	var running int32
+	limit := effWorkers(c)
 	fn := func(i int) {
 		id := 1 + i
-		if v := atomic.AddInt32(&running, 1); int(v) > c.N {
-			mon.report("%s: %d workers inside the user function, cap %d", c.Obj, v, c.N)
+		if v := atomic.AddInt32(&running, 1); int(v) > limit {
+			mon.report("%s: %d workers inside the user function, cap %d", c.Obj, v, limit)
 		}
 		ctl.Log(id, "fs", 0)
 		ctl.Gate(id, "fn", 0)
@@ -372,6 +471,27 @@ func runWP(c Case, ctl *sched.Ctl, mon *monitor, wg *sync.WaitGroup) {
 		if c.Items[i] == 1 {
 			panic("user function panic")
 		}
+	}
+	gen := func(source chan<- int) {
+		for i := range c.Items {
+			source <- i
+		}
+	}
+	fxgen := func(source chan<- any) {
+		for i := range c.Items {
+			source <- i
+		}
+	}
+	mapper := func(item int, w mr.Writer[int], cancel func(error)) {
+		fn(item)
+		w.Write(item)
+	}
+	reducer := func(pipe <-chan int, w mr.Writer[int], cancel func(error)) {
+		s := 0
+		for v := range pipe {
+			s += v
+		}
+		w.Write(s)
 	}
 	wg.Add(1)
 	ctl.Go(0, func() {
@@ -387,72 +507,208 @@ func runWP(c Case, ctl *sched.Ctl, mon *monitor, wg *sync.WaitGroup) {
 			}()
 			switch c.Obj {
 			case "mr":
-				mr.ForEach(func(source chan<- int) {
-					for i := range c.Items {
-						source <- i
+				mr.ForEach(gen, func(item int) { fn(item) }, mr.WithWorkers(c.N))
+			case "mrdef":
+				mr.ForEach(gen, func(item int) { fn(item) })
+			case "mrmr":
+				if _, err := mr.MapReduce(gen, mapper, reducer, mr.WithWorkers(c.N)); err != nil {
+					r = -1
+				}
+			case "mrvoid":
+				if err := mr.MapReduceVoid(gen, mapper, func(pipe <-chan int, cancel func(error)) {
+					for range pipe {
 					}
-				}, func(item int) { fn(item) }, mr.WithWorkers(c.N))
+				}, mr.WithWorkers(c.N)); err != nil {
+					r = -1
+				}
+			case "mrchan":
+				src := make(chan int)
+				go func() {
+					gen(src)
+					close(src)
+				}()
+				if _, err := mr.MapReduceChan(src, mapper, reducer, mr.WithWorkers(c.N)); err != nil {
+					r = -1
+				}
+			case "finish":
+				fns := make([]func() error, len(c.Items))
+				for i := range c.Items {
+					i := i
+					fns[i] = func() error { fn(i); return nil }
+				}
+				if err := mr.Finish(fns...); err != nil {
+					r = -1
+				}
+			case "finishvoid":
+				fns := make([]func(), len(c.Items))
+				for i := range c.Items {
+					i := i
+					fns[i] = func() { fn(i) }
+				}
+				mr.FinishVoid(fns...)
 			case "fx":
-				fx.From(func(source chan<- any) {
-					for i := range c.Items {
-						source <- i
-					}
-				}).Walk(func(item any, pipe chan<- any) { fn(item.(int)) }, fx.WithWorkers(c.N)).Done()
-			default:
-				fx.From(func(source chan<- any) {
-					for i := range c.Items {
-						source <- i
-					}
-				}).Parallel(func(item any) { fn(item.(int)) }, fx.WithWorkers(c.N))
+				fx.From(fxgen).Walk(func(item any, pipe chan<- any) { fn(item.(int)); pipe <- item }, fx.WithWorkers(c.N)).Done()
+			case "fxdef":
+				fx.From(fxgen).Walk(func(item any, pipe chan<- any) { fn(item.(int)) }).Done()
+			case "fxu":
+				fx.From(fxgen).Walk(func(item any, pipe chan<- any) { fn(item.(int)); pipe <- item }, fx.UnlimitedWorkers()).Done()
+			case "fxmap":
+				fx.From(fxgen).Map(func(item any) any { fn(item.(int)); return item }, fx.WithWorkers(c.N)).Done()
+			case "fxfilter":
+				fx.From(fxgen).Filter(func(item any) bool { fn(item.(int)); return item.(int)%2 == 0 }, fx.WithWorkers(c.N)).Done()
+			default: // fxp
+				fx.From(fxgen).Parallel(func(item any) { fn(item.(int)) }, fx.WithWorkers(c.N))
 			}
 		}()
 		ctl.Log(0, "ret", 0, r)
 	})
 }
 
-// worker caps of mr and fx: direct gauge only
+// threading.WorkerGroup: actor 0 calls Start, actor 1+k is the k-th invocation of job
+func runWG(c Case, ctl *sched.Ctl, mon *monitor, wg *sync.WaitGroup) {
+	var running, counter int32
+	job := func() {
+		k := int(atomic.AddInt32(&counter, 1)) - 1
+		id := 1 + k
+		if v := atomic.AddInt32(&running, 1); int(v) > c.N {
+			mon.report("workergroup: %d workers inside job, workers %d", v, c.N)
+		}
+		ctl.Log(id, "fs", 0)
+		ctl.Gate(id, "job", 0)
+		if c.Free {
+			spin(k % 4)
+		}
+		ctl.Log(id, "fe", 0)
+		atomic.AddInt32(&running, -1)
+		ctl.Done(id)
+		if k < len(c.Items) && c.Items[k] == 1 {
+			panic("job panic")
+		}
+	}
+	wg.Add(1)
+	ctl.Go(0, func() {
+		defer wg.Done()
+		ctl.Gate(0, "call", 0)
+		ctl.Log(0, "inv", 0, 0)
+		r := int64(1)
+		func() {
+			defer func() {
+				if p := recover(); p != nil {
+					r = 3
+				}
+			}()
+			threading.NewWorkerGroup(job, c.N).Start()
+		}()
+		ctl.Log(0, "ret", 0, r)
+	})
+}
+
+// constructors with n <= 0
+func runCtor(c Case) int64 {
+	r := int64(1)
+	func() {
+		defer func() {
+			if p := recover(); p != nil {
+				r = 3
+			}
+		}()
+		switch c.Obj {
+		case "limit":
+			syncx.NewLimit(c.N)
+		case "tlimit":
+			syncx.NewTimeoutLimit(c.N)
+		case "taskrunner":
+			threading.NewTaskRunner(c.N)
+		case "pool":
+			syncx.NewPool(c.N, func() any { return 0 }, func(any) {})
+		}
+	}()
+	return r
+}
+
+// worker caps of mr, fx and WorkerGroup: direct gauge only (free-running, under -race)
 func runMrFx(c Case, mon *monitor) {
-	var g int32
+	// one gauge per entry point (a cancelled MapReduce returns while its mappers still run)
+	gauges := map[string]*int32{}
+	var gmu sync.Mutex
 	work := func(what string, k int) {
-		if v := atomic.AddInt32(&g, 1); int(v) > c.N {
+		gmu.Lock()
+		g := gauges[what]
+		if g == nil {
+			g = new(int32)
+			gauges[what] = g
+		}
+		gmu.Unlock()
+		if v := atomic.AddInt32(g, 1); int(v) > c.N {
 			mon.report("%s: %d workers inside, cap %d", what, v, c.N)
 		}
 		spin(k % 5)
-		atomic.AddInt32(&g, -1)
+		atomic.AddInt32(g, -1)
 	}
 	items := 40 + 10*c.N
-	mr.ForEach(func(source chan<- int) {
+	gen := func(source chan<- int) {
 		for i := 0; i < items; i++ {
 			source <- i
 		}
-	}, func(item int) { work("mr.ForEach", item) }, mr.WithWorkers(c.N))
-	_, _ = mr.MapReduce(func(source chan<- int) {
+	}
+	fxgen := func(source chan<- any) {
 		for i := 0; i < items; i++ {
 			source <- i
 		}
-	}, func(item int, w mr.Writer[int], cancel func(error)) {
-		work("mr.MapReduce", item)
-		w.Write(item)
-	}, func(pipe <-chan int, w mr.Writer[int], cancel func(error)) {
+	}
+	reducer := func(pipe <-chan int, w mr.Writer[int], cancel func(error)) {
 		s := 0
 		for v := range pipe {
 			s += v
 		}
 		w.Write(s)
-	}, mr.WithWorkers(c.N))
-	fx.From(func(source chan<- any) {
-		for i := 0; i < items; i++ {
-			source <- i
+	}
+	mr.ForEach(gen, func(item int) { work("mr.ForEach", item) }, mr.WithWorkers(c.N))
+	_, _ = mr.MapReduce(gen, func(item int, w mr.Writer[int], cancel func(error)) {
+		work("mr.MapReduce", item)
+		w.Write(item)
+	}, reducer, mr.WithWorkers(c.N))
+	// cancelled half way: the cap must hold for the mappers still running
+	_, _ = mr.MapReduce(gen, func(item int, w mr.Writer[int], cancel func(error)) {
+		work("mr.MapReduce(cancel)", item)
+		if item == items/2 {
+			cancel(fmt.Errorf("stop"))
 		}
-	}).Walk(func(item any, pipe chan<- any) {
+		w.Write(item)
+	}, reducer, mr.WithWorkers(c.N))
+	_ = mr.MapReduceVoid(gen, func(item int, w mr.Writer[int], cancel func(error)) {
+		work("mr.MapReduceVoid", item)
+		w.Write(item)
+	}, func(pipe <-chan int, cancel func(error)) {
+		for range pipe {
+		}
+	}, mr.WithWorkers(c.N))
+	src := make(chan int)
+	go func() {
+		gen(src)
+		close(src)
+	}()
+	_, _ = mr.MapReduceChan(src, func(item int, w mr.Writer[int], cancel func(error)) {
+		work("mr.MapReduceChan", item)
+		w.Write(item)
+	}, reducer, mr.WithWorkers(c.N))
+	fns := make([]func() error, c.N)
+	vfns := make([]func(), c.N)
+	for i := range fns {
+		i := i
+		fns[i] = func() error { work("mr.Finish", i); return nil }
+		vfns[i] = func() { work("mr.FinishVoid", i) }
+	}
+	_ = mr.Finish(fns...)
+	mr.FinishVoid(vfns...)
+	fx.From(fxgen).Walk(func(item any, pipe chan<- any) {
 		work("fx.Walk", item.(int))
 		pipe <- item
 	}, fx.WithWorkers(c.N)).Done()
-	fx.From(func(source chan<- any) {
-		for i := 0; i < items; i++ {
-			source <- i
-		}
-	}).Parallel(func(item any) { work("fx.Parallel", item.(int)) }, fx.WithWorkers(c.N))
+	fx.From(fxgen).Parallel(func(item any) { work("fx.Parallel", item.(int)) }, fx.WithWorkers(c.N))
+	fx.From(fxgen).Map(func(item any) any { work("fx.Map", item.(int)); return item }, fx.WithWorkers(c.N)).
+		Filter(func(item any) bool { work("fx.Filter", item.(int)); return true }, fx.WithWorkers(c.N)).Done()
+	threading.NewWorkerGroup(func() { work("WorkerGroup", 1) }, c.N).Start()
 }
 
 func runCase(c Case) (out Out) {
@@ -460,6 +716,10 @@ func runCase(c Case) (out Out) {
 	mon := &monitor{out: &out}
 	if c.Kind == "mrfx" {
 		runMrFx(c, mon)
+		return out
+	}
+	if c.Kind == "ctor" {
+		out.R = runCtor(c)
 		return out
 	}
 	ctl := sched.New(c.Free)
@@ -473,6 +733,8 @@ func runCase(c Case) (out Out) {
 		runPL(c, ctl, mon, &wg)
 	case "wp":
 		runWP(c, ctl, mon, &wg)
+	case "wg":
+		runWG(c, ctl, mon, &wg)
 	default:
 		out.Err = "unknown kind " + c.Kind
 		return out
